@@ -88,6 +88,10 @@ def _on_raise(exc, args, kwargs):
 
 
 def _install(ctx):
+    if _state.get('installed'):
+        _state['ctx'] = ctx
+        return
+    _state['installed'] = True
     import parso.grammar
     _state['ctx'] = ctx
     contracts.install(parso.grammar.Grammar, '_get_normalizer_issues', _post, snap=_snap, on_raise=_on_raise)
